@@ -32,6 +32,7 @@ for p in props:
     pid = p['id']
     if pid in ROWS:
         lvl, eng, tech, text, ref = ROWS[pid]
+        eng = {'LL': LL, 'CB': CB, 'CB+LL': CB + ' + ' + LL}.get(eng, eng)
         checks.append(dict(property_id=pid, quick_cmd='python3-vt check.py %s --tier quick' % pid, thorough_cmd='python3-vt check.py %s --tier thorough' % pid,
                            evidence_file='evidence/%s.json' % pid, replay_cmd_template='python3-vt check.py %s --replay {path}' % pid, engine=eng,
                            level_claimed=dict(category=lvl, text=text, design_ref='DESIGN.md ' + ref),
